@@ -734,7 +734,8 @@ Inductive jkind :=
 | JTokenInit    (* initial fill of a freshly made 1-slot state channel *)
 | JClosedRange  (* range over a channel that was closed on the line before, after all senders were joined *)
 | JNotSession   (* loop of a handler-lifetime goroutine (not per session); must still select on ctx.Done() *)
-| JServerWait.  (* Relay.Wait: server shutdown, outside any session *)
+| JServerWait   (* Relay.Wait: server shutdown, outside any session *)
+| JNonBlocking. (* a select with a default case in a handler-lifetime goroutine: it never waits *)
 
 Local Open Scope string_scope.
 Definition straight : list (String.string * nat * jkind) := [
@@ -751,6 +752,7 @@ Definition straight : list (String.string * nat * jkind) := [
   ("sqlite.simpleSQLiteHandler.serveClientReqMsg", 2, JFreshBuf);
   ("sqlite.simpleSQLiteHandler.serveClientEventMsg", 1, JFreshBuf);
   ("sqlite.simpleSQLiteHandler.serveBulkInsert", 0, JNotSession);
+  ("sqlite.simpleSQLiteHandler.serveBulkInsert", 1, JNonBlocking);   (* shutdown: the queue is drained (fix F13) *)
   ("sqlite.simpleSQLiteHandler.bulkInsertWithRetry", 0, JNotSession);
   ("prometheus.simplePrometheusMiddlewareBase.ServeNostrClientMsg", 0, JFreshBuf);
   ("prometheus.simplePrometheusMiddlewareBase.ServeNostrServerMsg", 0, JFreshBuf)
@@ -893,6 +895,7 @@ Definition jcompat (k : bp_kind) (d df : bool) (j : jkind) : bool :=
   | JClosedRange, BRange _ => true
   | JNotSession, BSelect _ => d
   | JServerWait, BWait _ => true
+  | JNonBlocking, BSelect _ => df
   | _, _ => false
   end.
 
